@@ -180,7 +180,7 @@ fn build_and_check<K: Kernel<D, Scalar = f64>, const D: usize>(rep: &Report, cn:
     }
     if let Some(first) = verdict.first() {
         let level = first.split(':').next().unwrap_or("?").to_string();
-        let class: String = first.split(':').nth(1).unwrap_or("").split(|c: char| c.is_ascii_digit() || c == '[').next().unwrap_or("").trim().to_string();
+        let class: String = vcore::report::msg_class(first.splitn(2, ':').nth(1).unwrap_or(""));
         rep.violation(Finding { signature: sig("reference_validity", json!({"level": level, "class": class})), description: format!("Ok result fails the independent reference: {first}"), replay: replay() });
         return;
     }
